@@ -60,7 +60,7 @@ template<typename S> static Chain observe_hll(const S& s, uint64_t n, const char
       count("sk_hll_gross_error_checks");
     }
   }
-  sig(mix64(mix64(static_cast<uint64_t>(mode) + 16 * (reinterpret_cast<uintptr_t>(fam) & 0xff), eff_lg_k), static_cast<uint64_t>(ch.est * 64)));
+  sig(mix64(mix64(static_cast<uint64_t>(mode) + 16 * (reinterpret_cast<uintptr_t>(fam) & 0xff), eff_lg_k), dbits(std::floor(ch.est * 64))));
   return ch;
 }
 
@@ -222,7 +222,7 @@ static void observe_cpc(const cpc_sketch& s, uint64_t n, const char* fam, const 
     VF_CHECK(w.lo <= icon.est && icon.est <= w.hi, std::string(fam) + "|small-range|icon-estimate-outside-accuracy-window", ctx() + " window=[" + str(w.lo) + "," + str(w.hi) + "] icon=" + str(icon.est));
     count(std::string("sk_") + fam + "_sparse");
   } else count(std::string("sk_") + fam + (n <= k ? "_small" : (n <= 4 * k ? "_transition" : "_asymptotic")));
-  sig(mix64(mix64(0xc9c + (reinterpret_cast<uintptr_t>(fam) & 0xff), eff_lg_k), mix64(s.get_num_coupons(), static_cast<uint64_t>(ch.est * 64))));
+  sig(mix64(mix64(0xc9c + (reinterpret_cast<uintptr_t>(fam) & 0xff), eff_lg_k), mix64(s.get_num_coupons(), dbits(std::floor(ch.est * 64)))));
 }
 
 static void run_cpc(const Cfg& c, Rng& r) {
